@@ -1,0 +1,18 @@
+//go:build verif
+
+package storage
+
+// VerifGate is a verification hook (build tag "verif" only). When set it is
+// called at the entry of the storage operations used by the processing
+// pipeline, before any lock is taken, with the name of the operation and the
+// key it operates on. A non-nil return value makes the operation fail with
+// that error without touching the database; the function may also block to
+// hold the calling goroutine at that point.
+var VerifGate func(op string, key string) error
+
+func gate(op string, key string) error {
+	if g := VerifGate; g != nil {
+		return g(op, key)
+	}
+	return nil
+}
